@@ -102,8 +102,12 @@ CLAIMED = {
        "copy of the cell value is used; `c = v` stores and yields v; `c op= v` reads the content after v was evaluated, stores and "
        "yields the result, and leaves the cell unchanged when op fails; the 11 compound operators are their base operators. Tied to "
        "the implementation by random assignment/read histories over aliasing graphs (arrays, structs, tuples, closures, cells of "
-       "cells, parameters; unions and any) compared with Spec, plus a recursive content-in-declared-type walk over the result.",
-  note=SPEC_NOTE + " The typed-content invariant for all checker-admitted assignments is checked by the harness walk and the monitor, not yet proved.",
+       "cells, parameters; unions and any) compared with Spec, plus a recursive content-in-declared-type walk over the result. "
+       "TYPED CONTENT (Thm/C01StD, shared with C01): for every program the checker model with cells and loops (Model/CheckS: `mut T e`, `*c`, "
+       "`c = v`, all eleven `c op= v`, cells passed to and captured by functions, loops) types, every store the evaluation passes "
+       "through respects a store typing - cells_keep_their_types: after any typed expression, each cell holds a value of its "
+       "declared type by tag and by contents (induction on fuel over the whole evaluator, the store typing only ever extended).",
+  note=SPEC_NOTE + " The typed-content invariant is proved for the checker-model fragment (declared content types, non-union cell operands; cells in structs and inferred `mut e` are outside it) and checked beyond it by the harness walk and the monitor.",
   technique="Lean 4 proof over a reference semantics + differential assignment histories", ref="DESIGN.md §6 C13"),
  "C19": dict(
   text="Lean 4 theorems about Spec.veq (total model of PartialEq for Variable) and F64.feq (IEEE equality defined on bit patterns): "
